@@ -4,6 +4,27 @@
 //
 // Numbers travel as exact dyadics `m:e` (= m * 2^e); never as decimal floats.  Op lines: see lean/Driver/C17.lean.
 #include <config.h>
+#ifdef DV_C17_PROBE_ONLY
+// compile probe (tools/checks/c17.py, `g++ -fsyntax-only -DDV_C17_PROBE_ONLY`): can FloatCmp::round / trunc be instantiated for
+// std::vector and FieldVector in the tree under test?  If not, the harness is compiled with -DDV_C17_VECRT=0 and the ops
+// fvround / fvtrunc answer FAIL (fixes/C17_vector_round_trunc.patch).
+#include <vector>
+#include <dune/common/float_cmp.hh>
+#include <dune/common/fvector.hh>
+void dv_c17_probe() {
+  namespace FC = Dune::FloatCmp;
+  std::vector<double> v{0.5};
+  Dune::FieldVector<float, 2> f{0.5f, 1.5f};
+  (void)FC::round<std::vector<int>, std::vector<double>, FC::absolute, FC::downward>(v, 0.1);
+  (void)FC::trunc<std::vector<long>, std::vector<double>, FC::relativeWeak, FC::upward>(v, 0.1);
+  (void)FC::round<Dune::FieldVector<int, 2>, Dune::FieldVector<float, 2>, FC::relativeStrong, FC::towardInf>(f, 0.1f);
+  (void)FC::trunc<Dune::FieldVector<short, 2>, Dune::FieldVector<float, 2>, FC::absolute, FC::towardZero>(f, 0.1f);
+  (void)Dune::FloatCmpOps<std::vector<double>>(0.1).round<std::vector<int>>(v);
+}
+#else
+#ifndef DV_C17_VECRT
+#define DV_C17_VECRT 1
+#endif
 #include <gmpxx.h>
 
 #include <cmath>
@@ -565,8 +586,8 @@ static void rtBranchStats(bool isRound, int style, const mpq_class& x, const mpq
 }
 
 // calls round / trunc through every overload that applies and through FloatCmpOps; `dflt` = the epsilon argument is omitted
-template <class T, class I, FC::CmpStyle cs, FC::RoundingStyle rs>
-I callRT(bool isRound, bool dflt, const T& val, T eps, std::string& ovl) {
+template <class T, class I, FC::CmpStyle cs, FC::RoundingStyle rs, class E = T>
+I callRT(bool isRound, bool dflt, const T& val, E eps, std::string& ovl) {
   I r;
   auto same = [&](I other, const char* what) { if (other != r && ovl.empty()) ovl = what; };
   if (dflt) {
@@ -951,6 +972,82 @@ template <class T, class I> Result execFRT(bool isRound, int style, int rstyle, 
   if (ea.dflt) stat("frt_default_eps");
   if (abs(X) + 2 >= pow2q(std::numeric_limits<T>::digits)) stat("frt_beyond_exact_integers");
   if (mpq_class(floorQ(X)) == X && eqSlack<T>(style, X + 1, X, E) == 1) stat("frt_integer_with_equal_successor");
+  return res;
+}
+
+// ------------------------------------------------------------------------------------------------
+// round / trunc of std::vector<T> / FieldVector<T,n> to std::vector<I> / FieldVector<I,n> (ops fvround, fvtrunc; round four).
+// Every component goes through the scalar executor first (domain, GMP laws, `unrep`); the vector call - every overload and
+// FloatCmpOps<vector type> - must then return, component for component, what the scalar function returns.
+// ------------------------------------------------------------------------------------------------
+#if DV_C17_VECRT
+template <class VT, class VI, class E> VI callVRTdyn(bool isRound, int style, int rstyle, bool dflt, const VT& val, E eps, std::string& ovl) {
+  VI r{};
+  withStyle(style, [&](auto S) {
+    constexpr FC::CmpStyle cs = CS[decltype(S)::value];
+    return withRStyle(rstyle, [&](auto R) {
+      constexpr FC::RoundingStyle rs = RS[decltype(R)::value];
+      r = callRT<VT, VI, cs, rs, E>(isRound, dflt, val, eps, ovl);
+      return 0;
+    });
+  });
+  return r;
+}
+template <class T, class I, int n> std::vector<I> callFV(bool isRound, int style, int rstyle, bool dflt, const std::vector<T>& val, T eps, std::string& ovl) {
+  Dune::FieldVector<T, n> v;
+  for (int i = 0; i < n; ++i) v[i] = val[(size_t)i];
+  Dune::FieldVector<I, n> r = callVRTdyn<Dune::FieldVector<T, n>, Dune::FieldVector<I, n>, T>(isRound, style, rstyle, dflt, v, eps, ovl);
+  std::vector<I> out;
+  for (int i = 0; i < n; ++i) out.push_back(r[i]);
+  return out;
+}
+#endif
+static bool fvrtSize(const std::string& kind, size_t n) { return kind == "std" || (kind == "fv" && (n == 1 || n == 2 || n == 3 || n == 5)); }
+template <class T, class I> Result execFVRT(bool isRound, const std::string& kind, int style, int rstyle, const std::vector<Dy>& dv_, const EpsArg& ea) {
+  if (!fvrtSize(kind, dv_.size())) return Result{"bad-op", "FAIL malformed line: container kind / size"};
+  std::vector<Result> comp;
+  for (const Dy& d : dv_) {
+    Result c = execFRT<T, I>(isRound, style, rstyle, d, ea);
+    if (c.impl == "bad-op") return c;
+    if (c.impl == "skip") return Result{"skip", "ok trivial"};   // a component outside the domain of the scalar function
+    comp.push_back(c);
+  }
+  Result res;
+  stat(std::string(isRound ? "fvround_" : "fvtrunc_") + kind + "_n" + std::to_string(dv_.size()));
+#if DV_C17_VECRT
+  std::vector<T> val;
+  for (const Dy& d : dv_) val.push_back(toT<T>(d));
+  T eps = ea.dflt ? docDefaultEps<T>(style) : toT<T>(ea.d);
+  std::string ovl, ovl2;
+  std::vector<I> got;
+  if (kind == "std") got = callVRTdyn<std::vector<T>, std::vector<I>, T>(isRound, style, rstyle, ea.dflt, val, eps, ovl);
+  else if (val.size() == 1) got = callFV<T, I, 1>(isRound, style, rstyle, ea.dflt, val, eps, ovl);
+  else if (val.size() == 2) got = callFV<T, I, 2>(isRound, style, rstyle, ea.dflt, val, eps, ovl);
+  else if (val.size() == 3) got = callFV<T, I, 3>(isRound, style, rstyle, ea.dflt, val, eps, ovl);
+  else got = callFV<T, I, 5>(isRound, style, rstyle, ea.dflt, val, eps, ovl);
+  std::string fail;
+  bool nontrivial = false;
+  if (got.size() != val.size())
+    fail = "the vector result has " + std::to_string(got.size()) + " entries for " + std::to_string(val.size()) + " components";
+  res.impl = "[";
+  for (size_t i = 0; i < comp.size(); ++i) {
+    res.impl += (i ? "," : "") + comp[i].impl;
+    if (comp[i].oracle.rfind("FAIL", 0) == 0 && fail.empty()) fail = "component " + std::to_string(i) + ": " + comp[i].oracle.substr(5);
+    if (comp[i].oracle == "ok") nontrivial = true;
+    if (fail.empty() && i < got.size()) {
+      I sc = callRTdyn<T, I>(isRound, style, rstyle, ea.dflt, val[i], eps, ovl2);
+      if (!(got[i] == sc))
+        fail = "component " + std::to_string(i) + " of the vector result is " + std::to_string(got[i]) + ", the scalar function returns " + std::to_string(sc);
+    }
+  }
+  res.impl += "]";
+  if (!fail.empty()) res.oracle = "FAIL " + fail;
+  else if (!ovl.empty()) res.oracle = "FAIL vector call: " + ovl;
+  else if (!nontrivial) res.oracle = "ok trivial";
+#else
+  res.impl = "uninstantiable";
+  res.oracle = "FAIL FloatCmp::round / trunc cannot be instantiated for std::vector / FieldVector in this tree (compile probe failed)";
+#endif
   return res;
 }
 
@@ -1520,6 +1617,25 @@ Result exec(const std::string& line) {
       return execFRT<long double, I>(isRound, st, rs, v, e);
     });
   }
+  if ((op == "fvround" || op == "fvtrunc") && w.size() == 8) {
+    int st = styleIdx(w[4]), rs = rstyleIdx(w[5]);
+    std::vector<Dy> v;
+    EpsArg e = parseEps(w[7]);
+    if (st < 0 || rs < 0 || !parseDyList(w[6], v) || !e.ok) return bad();
+    bool isRound = op == "fvround";
+    const std::string& it = w[2];
+    // a subset of the scalar instantiations (compile time): float / double / long double x int, unsigned char, short, unsigned long
+    if (it != "i32" && it != "u8" && it != "i16" && it != "u64") return bad();
+    if (w[1] != "f32" && w[1] != "f64" && w[1] != "f80") return bad();
+    return withRTType(it, [&](auto I0) -> Result {
+      using I = decltype(I0);
+      if constexpr (std::is_same_v<I, int> || std::is_same_v<I, unsigned char> || std::is_same_v<I, short> || std::is_same_v<I, unsigned long>) {
+        if (w[1] == "f32") return execFVRT<float, I>(isRound, w[3], st, rs, v, e);
+        if (w[1] == "f64") return execFVRT<double, I>(isRound, w[3], st, rs, v, e);
+        return execFVRT<long double, I>(isRound, w[3], st, rs, v, e);
+      } else return bad();
+    });
+  }
   if (op == "defeps" && w.size() == 3) {
     int st = styleIdx(w[2]);
     if (st < 0) return bad();
@@ -2006,7 +2122,34 @@ template <class T> std::string genFRTT(Rng& r) {
      << epsTok(eps, dflt);
   return os.str();
 }
-static std::string genF(Rng& r, int what) {  // what: 0 fcmp, 1 fcmpv, 2 frt
+// a vector op from scalar cases: the components are the arguments of generated scalar cases with the same types and styles
+template <class T> std::string genFVRTT(Rng& r) {
+  static const std::vector<std::string> IT = {"i32", "u8", "i16", "u64"};
+  std::string first;
+  std::vector<std::string> w0;
+  for (int tries = 0; tries < 200; ++tries) {
+    w0 = split(genFRTT<T>(r), ' ');
+    if (std::find(IT.begin(), IT.end(), w0[2]) != IT.end()) break;
+  }
+  if (std::find(IT.begin(), IT.end(), w0[2]) == IT.end()) w0[2] = "i32";
+  bool stdv = r.coin();
+  static const int FVN[] = {1, 2, 3, 5};
+  int n = stdv ? (int)r.range(0, 7) : FVN[r.below(4)];
+  std::vector<std::string> comps;
+  if (n > 0) comps.push_back(w0[5]);
+  for (int tries = 0; (int)comps.size() < n && tries < 4000; ++tries) {
+    std::vector<std::string> w = split(genFRTT<T>(r), ' ');
+    if (w[2] != w0[2]) continue;
+    comps.push_back(w[5]);
+  }
+  while ((int)comps.size() < n) comps.push_back(comps.empty() ? std::string("3:-1") : comps.back());
+  if (comps.size() > 1) std::swap(comps[0], comps[(size_t)r.below(comps.size())]);   // the interesting component anywhere
+  std::ostringstream os;
+  os << (w0[0] == "fround" ? "fvround " : "fvtrunc ") << w0[1] << " " << w0[2] << (stdv ? " std " : " fv ") << w0[3] << " " << w0[4] << " " << listStr(comps) << " " << w0[6];
+  return os.str();
+}
+static std::string genF(Rng& r, int what) {  // what: 0 fcmp, 1 fcmpv, 2 frt, 3 fvrt
+  if (what == 3) { int t = (int)r.below(4); return t == 0 ? genFVRTT<float>(r) : t == 1 ? genFVRTT<long double>(r) : genFVRTT<double>(r); }
   int t = (int)r.below(5);  // double twice as often as the others
   if (what == 2) return t == 0 ? genFRTT<float>(r) : t == 1 ? genFRTT<long double>(r) : genFRTT<double>(r);
   bool vec = what == 1;
@@ -2208,7 +2351,7 @@ std::string gen(Rng& r, long i, const Args& a) {
   };
   // focused streams (used by the search after a broken correspondence / obligation, and by the thorough tier)
   if (kind == "rt") {
-    switch (r.below(7)) { case 0: case 1: return genRT(r); case 2: return genMfr(); case 3: return genMfri(); default: return genF(r, 2); }
+    switch (r.below(8)) { case 0: case 1: return genRT(r); case 2: return genMfr(); case 3: return genMfri(); case 4: return genF(r, 3); default: return genF(r, 2); }
   }
   if (kind == "cmp") {
     switch (r.below(8)) { case 0: case 1: return genCmp(r, false); case 2: return genCmp(r, true); case 3: return genMf();
@@ -2222,7 +2365,8 @@ std::string gen(Rng& r, long i, const Args& a) {
     case 4: case 5: case 6: case 7: return genF(r, 0);
     case 8: return genF(r, 1);
     case 9: case 10: return genRT(r);
-    case 11: case 12: case 13: case 14: return genF(r, 2);
+    case 11: case 12: case 13: return genF(r, 2);
+    case 14: return genF(r, 3);
     case 15: return genMf();
     case 16: return genMfr();
     case 17: return r.coin() ? genMfr() : genMfri();
@@ -2254,3 +2398,4 @@ int main(int argc, char** argv) {
   for (auto& s : av) cv.push_back(s.data());
   return run((int)cv.size(), cv.data(), gen, exec);
 }
+#endif  // DV_C17_PROBE_ONLY
